@@ -37,6 +37,7 @@ type Result struct {
 	Answers map[string]string
 	TimeS   float64
 	Model   string
+	Retried bool // decided in the second, unloaded pass
 }
 
 var solverCmds = map[string]func(file string, timeoutS int) []string{
@@ -46,6 +47,14 @@ var solverCmds = map[string]func(file string, timeoutS int) []string{
 }
 
 func firstAnswer(out string) string {
+	// a malformed query (undeclared symbol, sort error) is never an answer: the solver would decide a
+	// different formula than the one generated
+	for _, l := range strings.Split(out, "\n") {
+		l = strings.TrimSpace(l)
+		if strings.HasPrefix(l, "(error") && !strings.Contains(l, "model is not available") {
+			return "error"
+		}
+	}
 	for _, l := range strings.Split(out, "\n") {
 		l = strings.TrimSpace(l)
 		switch l {
@@ -90,6 +99,47 @@ func race(file string, timeoutS int, waitAll bool) (answers map[string]string, w
 	}
 	elapsed = time.Since(start).Seconds()
 	return
+}
+
+// decide sets the status of an obligation from the solvers' answers.
+func decide(r *Result, ans map[string]string, win string, el float64, tier string) {
+	r.Answers = ans
+	r.Solver = win
+	r.TimeS = el
+	if win != "" {
+		r.Answer = ans[win]
+	} else {
+		r.Answer = "unknown"
+	}
+	if r.Obl.Expect == "sat" {
+		// canary: fail only if some solver proves the assumptions contradictory
+		r.Status = "canary-ok"
+		for _, a := range ans {
+			if a == "unsat" {
+				r.Status = "canary-failed"
+			}
+		}
+		return
+	}
+	hasUnsat, hasSat := false, false
+	for _, a := range ans {
+		if a == "unsat" {
+			hasUnsat = true
+		}
+		if a == "sat" {
+			hasSat = true
+		}
+	}
+	switch {
+	case hasUnsat && !(hasSat && tier == "thorough"):
+		r.Status = "discharged"
+		r.Answer = "unsat"
+	default:
+		r.Status = "failed"
+		if hasSat {
+			r.Answer = "sat"
+		}
+	}
 }
 
 func main() {
@@ -140,6 +190,7 @@ func cmdCheck(args []string) int {
 	keep := fs.Bool("keep", false, "keep SMT files of discharged obligations")
 	noEvidence := fs.Bool("selftest", false, "self-test run on a scratch copy: no evidence, separate replay dir")
 	workSuffix := fs.String("work-suffix", "", "suffix of the work directory")
+	_ = keep
 	fs.Parse(args)
 	start := time.Now()
 	var props map[string]*PropSpec
@@ -278,53 +329,42 @@ func cmdCheck(args []string) int {
 				t = 5
 			}
 			ans, win, el := race(r.File, t, *tier == "thorough" && r.Obl.Kind != "vacuity")
-			r.Answers = ans
-			r.Solver = win
-			r.TimeS = el
-			if win != "" {
-				r.Answer = ans[win]
-			} else {
-				r.Answer = "unknown"
-			}
-			if r.Obl.Expect == "sat" {
-				// canary: fail only if some solver proves the assumptions contradictory
-				r.Status = "canary-ok"
-				for _, a := range ans {
-					if a == "unsat" {
-						r.Status = "canary-failed"
-					}
-				}
-				return
-			}
-			hasUnsat, hasSat := false, false
-			for _, a := range ans {
-				if a == "unsat" {
-					hasUnsat = true
-				}
-				if a == "sat" {
-					hasSat = true
-				}
-			}
-			switch {
-			case hasUnsat && !(hasSat && *tier == "thorough"):
-				r.Status = "discharged"
-				r.Answer = "unsat"
-				if !*keep {
-					// keep files: they are small and useful; removed with the work dir on next run
-				}
-			default:
-				r.Status = "failed"
-				if hasSat {
-					r.Answer = "sat"
-				}
-			}
+			decide(r, ans, win, el, *tier)
 		}(r)
 	}
 	wg.Wait()
+	// An obligation that no solver decided because of a time-out (no `sat` answer) is tried once more,
+	// alone and with three times the limit: the first pass runs many solvers at once, and a loaded
+	// machine must not turn a slow proof into an alarm. At most 6 obligations are retried.
+	retried := 0
+	for _, r := range results {
+		if r.File == "" || r.Status != "failed" || retried >= 6 {
+			continue
+		}
+		timedOut, sat := false, false
+		for _, a := range r.Answers {
+			if a == "timeout" || a == "unknown" {
+				timedOut = true
+			}
+			if a == "sat" {
+				sat = true
+			}
+		}
+		if !timedOut || sat || r.TimeS < float64(timeoutS)-1 {
+			continue
+		}
+		retried++
+		ans, win, el := race(r.File, 3*timeoutS, false)
+		decide(r, ans, win, r.TimeS+el, *tier)
+		r.Retried = true
+	}
 	if ld != nil {
 		for _, sc := range ps.Structural {
 			if sc == "routes" {
 				structResults = append(structResults, structuralRoutes(ld)...)
+			}
+			if sc == "config" {
+				structResults = append(structResults, structuralConfig(ld)...)
 			}
 		}
 	}
